@@ -48,21 +48,4 @@ Section Model.
                 let (ss, w2) := run w1 r in (s :: ss, w2)
     end.
 
-  (** call every dispatch value of [univ], one after the other *)
-  Fixpoint probe (w : W) (univ : list tag) : list res * W :=
-    match univ with
-    | [] => ([], w)
-    | k :: r => let (x, w1) := call tag hier tag_eqb m_isa hier_eqb k w in
-                let (xs, w2) := probe w1 r in (x :: xs, w2)
-    end.
-
-  (** a history with a probe of the whole universe after every step (when [every]) *)
-  Fixpoint run_probed (every : bool) (univ : list tag) (w : W) (ops : list op)
-    : list (sres * list res) * W :=
-    match ops with
-    | [] => ([], w)
-    | o :: r => let (s, w1) := step w o in
-                let (ps, w2) := if every then probe w1 univ else ([], w1) in
-                let (rest, w3) := run_probed every univ w2 r in ((s, ps) :: rest, w3)
-    end.
 End Model.
